@@ -105,7 +105,7 @@ func vpCheckVerdict(P string, msg ClientMsg, respects bool, cm <-chan ClientMsg,
 	if respects {
 		vpAssert(len(fwd) == 1 && len(rep) == 0, P+".forward-exactly")
 		if len(fwd) == 1 {
-			vpAssert(vpSameObject(fwd[0], msg), P+".forward-unchanged")
+			vpAssert(vpUnchanged(fwd[0], msg), P+".forward-unchanged")
 		}
 		return
 	}
@@ -145,7 +145,7 @@ func vpCheckServerPass(P string, base SimpleMiddlewareBase, ctx context.Context)
 	out := vpDrainServer(ch)
 	vpAssert(len(out) == 1, P+".server-pass-one")
 	if len(out) == 1 {
-		vpAssert(vpSameObject(out[0], sm), P+".server-pass-unchanged")
+		vpAssert(vpUnchanged(out[0], sm), P+".server-pass-unchanged")
 	}
 }
 
